@@ -24,7 +24,8 @@ META = {
                    "a symbolic width/index/value is decided by z3 and both outcomes explored; "
                    "the post-state of one operation from an arbitrary valid frame state is "
                    "compared with a reference bit-vector model by unsat queries",
-    "bounds": ["frame width 1..64 (quick: 1..24)", "indices -2..width+2",
+    "bounds": ["bit clear and slice write on the result of a concatenation",
+               "frame width 1..64 (quick: 1..24)", "indices -2..width+2",
                "written values -2..2^(width+1)", "bit-vector width of the encoding 128",
                "one operation per path from an arbitrary valid state (inductive step)",
                "three-step histories read-views / write / read-views / write / read-views, width <= 12 "
